@@ -313,6 +313,34 @@ func c18run(line string) (string, []string) {
 			out = append(out, fmt.Sprint(cls[tg]))
 		}
 		return "classes " + strings.Join(out, " ") + " stale " + strings.Join(stale, " "), viol
+	case "readbig": // readbig <size> <off> <len>: a range far larger than any transport buffer, over the HTTP backend, from an origin that delivers the second half of the body after the headers and the first half
+		size, off, l := t.n(), t.n(), t.n()
+		obj := (&rng{s: uint64(size)*131 + uint64(off)}).bytes(size)
+		c18orig.mu.Lock()
+		c18orig.fault = ""
+		c18orig.objs["big"] = obj
+		c18orig.stagger = true
+		c18orig.mu.Unlock()
+		defer func() { c18orig.mu.Lock(); c18orig.stagger = false; c18orig.mu.Unlock() }()
+		bk, _ := pmtiles.OpenBucket(ctx, c18orig.srv.URL, "")
+		for k := 0; k < 2; k++ { // two reads: every other request is the delayed one
+			r, _, st, err := bk.NewRangeReaderEtag(ctx, "big", int64(off), int64(l), "")
+			if err != nil {
+				viol = append(viol, fmt.Sprintf("HTTP backend: read(%d,%d) of a %d-byte object failed (status %d): %v", off, l, size, st, err))
+				break
+			}
+			got, rerr := io.ReadAll(r)
+			r.Close()
+			end := off + l
+			if end > size {
+				end = size
+			}
+			if rerr != nil || !bytes.Equal(got, obj[off:end]) {
+				viol = append(viol, fmt.Sprintf("HTTP backend: read(%d,%d) of a %d-byte object delivered %d of %d bytes (read error: %v)", off, l, size, len(got), end-off, rerr))
+				break
+			}
+		}
+		return "ok", viol
 	case "fault":
 		kind := strings.Join(t.t[t.i:], " ")
 		var bk pmtiles.Bucket
@@ -371,6 +399,10 @@ func c18(r *rng, tier string, o *out) {
 		}
 		emit(fmt.Sprintf("adapter %s missing 0 4 n", fl), true, "adapter-missing-"+fl)
 	}
+	for _, sz := range []int{70000, 300000} {
+		emit(fmt.Sprintf("readbig %d %d %d", sz, 0, sz), true, "http-large-range")
+		emit(fmt.Sprintf("readbig %d %d %d", sz, 1000+r.intn(1000), sz/2), true, "http-large-range")
+	}
 	for _, b := range []string{"m", "f", "h"} {
 		for _, sz := range sizes {
 			obj := r.bytes(sz)
@@ -401,7 +433,7 @@ func c18(r *rng, tier string, o *out) {
 		// replacement histories: same size / different size, mtimes differing by 1ns, within one second, by seconds, or not at all
 		nh := 20
 		if tier == "thorough" {
-			nh = 400
+			nh = 2000
 		}
 		for c := 0; c < nh; c++ {
 			n := 2 + r.intn(4)
